@@ -9,6 +9,15 @@ import re
 from . import facts as F
 
 
+_CHAR_LIT = re.compile(r"'(\\.|[^\\'\n])'")
+
+
+def _char_lit_len(text, i):
+    """length of a Rust char literal ('"', '\\n', 'x') starting at i, else 0 (lifetimes like 'input are not literals)"""
+    m = _CHAR_LIT.match(text, i)
+    return len(m.group(0)) if m else 0
+
+
 class GrammarError(Exception):
     pass
 
@@ -95,6 +104,11 @@ class Grammar:
                 toks.append(("regex", text[j + 1:end], line))
                 i = end + 1 + hashes
                 continue
+            if c == "'" and _char_lit_len(text, i):
+                k = _char_lit_len(text, i)
+                toks.append(("chr", text[i:i + k], line))
+                i += k
+                continue
             if c == '"':
                 j = i + 1
                 s = ""
@@ -179,6 +193,9 @@ class Grammar:
                     end = s.find('"' + "#" * hashes, j + 1)
                     i = end + 1 + hashes
                     continue
+            if c == "'" and _char_lit_len(s, i):
+                i += _char_lit_len(s, i)
+                continue
             if c == '"':
                 i += 1
                 while s[i] != '"':
@@ -277,6 +294,9 @@ class Grammar:
         depth = 0
         while i < len(s):
             c = s[i]
+            if c == "'" and _char_lit_len(s, i):
+                i += _char_lit_len(s, i)
+                continue
             if c == '"':
                 i += 1
                 while s[i] != '"':
@@ -311,6 +331,9 @@ class Grammar:
                 continue
             if c == "\n":
                 line += 1
+            if c == "'" and _char_lit_len(s, i):
+                i += _char_lit_len(s, i)
+                continue
             if c == '"':
                 i += 1
                 while s[i] != '"':
@@ -347,6 +370,9 @@ class Grammar:
         arrow = None
         while i < len(text):
             c = text[i]
+            if c == "'" and _char_lit_len(text, i):
+                i += _char_lit_len(text, i)
+                continue
             if c == '"':
                 i += 1
                 while text[i] != '"':
